@@ -324,6 +324,7 @@ def judge_batch(job):
                 cases = []
                 meta = {}
                 reuse_prime = {}
+                batch_cache = {}
                 for si, (st, top) in enumerate(zip(prep.states, prep.tops)):
                     out['states'] += 1
                     site_of[st.key] = known_site(ref, top)
@@ -397,6 +398,10 @@ def judge_batch(job):
                     def art(ename, data, detail, st=st, top=top, v=v, cid=cid):
                         a = sse.artefact_for(st, top, ref, prep.defs, v, ename, data, '', detail)
                         a['side'] = 'cpp'
+                        # the whole file the type was generated in (for failures that need an earlier definition of the run)
+                        if 'ctx' not in batch_cache:
+                            batch_cache['ctx'] = {'schema': S.render_prophy(prep.defs), 'defs': S.defs_to_json(prep.defs)}
+                        a['batch'] = dict(batch_cache['ctx'], top=top)
                         # the cases of the same type run earlier in the same process (for order-dependent failures)
                         a['history'] = [[c[2], c[3], D._hex(c[4])] for c in cases if c[1] == top and c[0].split('.')[0] == cid.split('.')[0]
                                         and int(c[0].split('.')[1]) < int(cid.split('.')[1])][-12:]
@@ -521,7 +526,17 @@ def run_cpp(ctx, props, ops=(), vcap=None, states=None, vmode=None):
 
 
 def replay(art, pid):
-    """Re-run one recorded C++ case alone."""
+    """Re-run one recorded C++ case alone; if it passes alone, in the file it was found in."""
+    why = _replay(art, pid)
+    if why is None and art.get('batch'):
+        b = art['batch']
+        why = _replay(dict(art, schema=b['schema'], defs=b['defs'], top=b['top'], batch=None), pid)
+        if why:
+            why = 'only as part of the whole generated file (an earlier definition matters):\n' + why[-3000:]
+    return why
+
+
+def _replay(art, pid):
     defs = S.defs_from_json(art['defs'])
     ref = R.Ref(defs)
     res = T.compile_text(art['schema'], outs=('cpp_full',))
